@@ -20,7 +20,8 @@ def bundle(fn, label, keyvar, nc, seq_mode='plus', returns=None, value_checked='
     out.append("ensures")
     out.append("    // [C06.%s.atomic] a failed update leaves the record untouched, whatever the cause (incl. a signing fault)" % label)
     out.append("    r is Err ==> final(self).same_as(old(self)),")
-    out.append("    // [C05.%s.valid] [C09.%s.limit] [C10.%s.nodeid_ok]" % (label, label, label))
+    # C15 / C04: a record equals its decode-after-encode image exactly when it is valid (node id = hash of the stored key, values well typed, size within the limit)
+    out.append("    // [C05.%s.valid] [C09.%s.limit] [C10.%s.nodeid_ok] [C15.%s.image] [C04.%s.image]" % (label, label, label, label, label))
     out.append("    r is Ok ==> final(self).valid(),")
     if seq_mode == 'plus':
         out.append("    // [C07.%s.plus_one] exactly +1, however many fields the update touches" % label)
@@ -41,6 +42,11 @@ def bundle(fn, label, keyvar, nc, seq_mode='plus', returns=None, value_checked='
     out.append("    (K::spec_sig_len() == Some(64nat) && old(self).signature@.len() == 64) ==> (")
     out.append("        (r matches Err(Error::ExceedsMaxSize) ==> rec_size(64, %s, %s) > 300)" % (new_seq, nc))
     out.append("        && (rec_size(64, %s, %s) > 300 ==> r is Err))," % (new_seq, nc))
+    if seq_mode == 'plus':
+        out.append("    // [C07.%s.max_err] at 2^64-1 the update is refused because of the sequence number: a size error is reported only if the" % label)
+        out.append("    // size limit is exceeded as well (implied by the clause above; it names the property a swapped error constant breaks)")
+        out.append("    (old(self).seq == u64::MAX && K::spec_sig_len() == Some(64nat) && old(self).signature@.len() == 64) ==>")
+        out.append("        (r matches Err(Error::ExceedsMaxSize) ==> rec_size(64, %s, %s) > 300)," % (new_seq, nc))
     out.append("    // [C08.%s.errkind] the reported error kind matches its cause" % label)
     if seq_mode == 'plus':
         out.append("    r matches Err(e) ==> err_cause_update::<K>(e, old(self).seq, old(self).signature@.len(), %s, %s, %s, %s)," % (nc, value_checked, k, v))
